@@ -377,6 +377,33 @@ func c05Run(c *Ctx) {
 			c05Judge(c, &Case{Gen: "reentrant-loops-cli", Mode: "cli", Src: src})
 		}
 	}
+	// 3c'. ordinary compound conditions, bounds and updates: non-boolean operands of the logical operators
+	// (count-down guards, defaults, nil guards) and % next to + - * / without parentheses (digit loops, pair-wise bounds)
+	{
+		conds := []string{"left " + K["and"] + " tries < 10", "left && tries < 10", "tries < 10 " + K["and"] + " left", "name " + K["or"] + " " + False(), "name || " + False(), "node " + K["and"] + " node.val > 3", "node && node.val > 3",
+			"nothing " + K["and"] + " nothing.val > 3", `"" ` + K["or"] + ` left`, "0 || nil || left", "left " + K["and"] + " name " + K["and"] + " node", "10 - tries % 3 == 9", "tries + left % 2 * 2 == 2", "left - left % 2 > 1", "1 + tries % 2 * 2 < 3", "tries % 2 + 1"}
+		for _, cnd := range conds {
+			src := pre + Lines(Var("left", "3"), Var("tries", "0"), Var("name", `""`), Var("node", "{val: 5}"), Var("nothing", "nil"),
+				IfElse(cnd, Print(`"then"`), Print(`"else"`)),
+				While(cnd, "{ left = left - 1; tries = tries + 1; "+If("tries > 12", Break())+" }"), Print(`"w " + left + " " + tries`),
+				"left = 3; tries = 0;", For(Var("i", "0"), cnd, "i = i + 1", "{ left = left - 1; tries = tries + 1; "+If("i > 12", Break())+" "+If("i % 2", Continue())+" "+Print("i")+" }"), Print(`"f " + left + " " + tries`))
+			if c.Mine() {
+				c05Judge(c, &Case{Gen: "compound-conditions", Src: src})
+			}
+		}
+		for _, src := range []string{
+			pre + Lines(Var("n", "9075"), Var("digits", "0"), Var("sum", "0"), While("n > 0", "{ sum = sum + n % 10; n = (n - n % 10) / 10; digits = digits + 1; }"), Print(`digits + " " + sum`)),
+			pre + Lines(Var("m", "7"), Var("pairs", "0"), For(Var("i", "0"), "i < m - m % 2", "i = i + 2", "{ "+If("i % 4 == 2", Continue())+" pairs = pairs + 1; }"), Print("pairs"), For(Var("h", "22"), "h != 2", "h = h + 5 % 24", "{ "+Print("h")+" "+If("h > 60", Break())+" }")),
+			pre + Lines(Var("k", "0"), While("k < 6", "{ k = k + 1; "+IfElse("k * 2 % 3 == 0", "{ "+Continue()+" }", IfElse("k - 1 % 2 == k - 1", Print(`"odd-form " + k`), Print(`"other " + k`)))+" }")),
+		} {
+			if c.Mine() {
+				c05Judge(c, &Case{Gen: "compound-conditions", Src: src})
+			}
+			if c.Mine() {
+				c05Judge(c, &Case{Gen: "compound-conditions-cli", Mode: "cli", Src: src})
+			}
+		}
+	}
 	// 3d. interactive mode: after a line that ended in a stray signal (or any runtime error), later lines with
 	// loops and branches run as in a fresh session
 	for _, bad := range []string{Break(), Continue(), Ret("1"), Print("1 / 0"), If(True(), "{ "+Break()+" }")} {
@@ -419,6 +446,6 @@ func init() {
 		Assumptions: []string{"every generated loop is bounded by construction; programs the model cannot finish in 200000 steps are skipped"},
 		Run:         c05Run,
 		Judge:       c05Judge,
-		MustCount:   func(c *Ctx) []string { return []string{"gen:loop-skeletons", "gen:empty-bodies", "gen:long-running-loops", "gen:arm-selection", "gen:stray-signals", "gen:stray-signals-after-history", "gen:else-if-chains", "gen:comparison-conditions", "gen:comment-shapes", "gen:loop-as-arm", "gen:reentrant-loops", "gen:repl-after-stray", "breaks_taken", "continues_taken", "then_arms", "else_arms", "fault:StrayBreak", "fault:StrayContinue", "fault:StrayReturn", "cli_runs"} },
+		MustCount:   func(c *Ctx) []string { return []string{"gen:loop-skeletons", "gen:empty-bodies", "gen:long-running-loops", "gen:arm-selection", "gen:stray-signals", "gen:stray-signals-after-history", "gen:else-if-chains", "gen:comparison-conditions", "gen:comment-shapes", "gen:loop-as-arm", "gen:reentrant-loops", "gen:compound-conditions", "gen:repl-after-stray", "breaks_taken", "continues_taken", "then_arms", "else_arms", "fault:StrayBreak", "fault:StrayContinue", "fault:StrayReturn", "cli_runs"} },
 	})
 }
